@@ -328,6 +328,10 @@ class EnvSim:
                 plain if self.table.flat else list(plain))
         except Exception as e:
             raise SutError("get_action", e)
+        try:
+            obj._dsim_intended = key     # what the supplied encoding documents
+        except Exception:
+            pass
         return plain, obj
 
     def _gstep(self, state, x, draws):
